@@ -1,5 +1,5 @@
 #!/usr/bin/env python3
-"""storemut.py <id> <property> <detected_by csv> <missed_by csv> : copies a confirmed seeded change into /verif/seeded/<id>/"""
+"""storemut.py <id> <property> <detected_by csv> <missed_by csv> [how] : copies a confirmed seeded change into /verif/seeded/<id>/"""
 import json, os, shutil, sys
 mid, prop, det, missed = sys.argv[1:5]
 src = "/tmp/mut/%s-out" % mid
@@ -18,7 +18,7 @@ meta = {
                      "cargo test --offline --test demo_%s (with change): FAILS" % mid,
                      "git stash -- src; cargo test --offline --test demo_%s (without change): passes" % mid],
     },
-    "checks_run": {"applied_with": "git -C /repo apply seeded/%s/patch.diff ; ./check <ID> --tier quick ; git -C /repo checkout -- ." % mid,
+    "checks_run": {"applied_with": (sys.argv[5] if len(sys.argv) > 5 else "git -C /repo apply seeded/%s/patch.diff ; ./check <ID> --tier quick ; git -C /repo checkout -- ." % mid),
                    "detected_by": [x for x in det.split(",") if x], "not_detected_by": [x for x in missed.split(",") if x]},
 }
 json.dump(meta, open(os.path.join(dst, "meta.json"), "w"), indent=1)
